@@ -468,8 +468,9 @@ using namespace boost::gil;
 #include "inst.hpp"
 struct arena { std::map<unsigned char*, std::size_t> live; int errors = 0; long allocs = 0, frees = 0; int id; };
 static arena A0{{},0,0,0,0}, A1{{},0,0,0,1};
-template <typename T> struct chk_alloc { using value_type = T; arena* a; chk_alloc(arena* p = &A0) : a(p) {}
-  template <typename U> chk_alloc(chk_alloc<U> const& o) : a(o.a) {}
+template <typename T, bool PropSwap = true> struct chk_alloc { using value_type = T; arena* a; chk_alloc(arena* p = &A0) : a(p) {}
+  template <typename U> struct rebind { using other = chk_alloc<U, PropSwap>; };
+  template <typename U> chk_alloc(chk_alloc<U, PropSwap> const& o) : a(o.a) {}
   T* allocate(std::size_t n) { unsigned char* p = (unsigned char*)std::malloc(n * sizeof(T) + 128); std::memset(p, 0xCD, n * sizeof(T) + 128); a->live[p + 64] = n * sizeof(T); a->allocs++; return (T*)(p + 64); }
   void deallocate(T* q, std::size_t n) { unsigned char* p = (unsigned char*)q; auto it = a->live.find(p);
     if (it == a->live.end()) { std::printf("deallocate of a block that is not live in this allocator (double free / foreign)\n"); a->errors++; return; }
@@ -477,38 +478,44 @@ template <typename T> struct chk_alloc { using value_type = T; arena* a; chk_all
     for (int i = 0; i < 64; i++) if (p[-1 - i] != 0xCD || p[it->second + i] != 0xCD) { std::printf("guard zone around a %zu-byte block overwritten\n", it->second); a->errors++; break; }
     a->live.erase(it); a->frees++; std::free(p - 64); }
   bool operator==(chk_alloc const& o) const { return a == o.a; } bool operator!=(chk_alloc const& o) const { return a != o.a; }
-  using propagate_on_container_move_assignment = std::false_type; using propagate_on_container_swap = std::true_type; };
+  using propagate_on_container_move_assignment = std::false_type; using propagate_on_container_swap = std::integral_constant<bool, PropSwap>; };
 using pixel_t = IMG::value_type;
-using image_t = image<pixel_t, IS_PLANAR_IMG, chk_alloc<unsigned char>>;
+template <bool PS> using image_ps = image<pixel_t, IS_PLANAR_IMG, chk_alloc<unsigned char, PS>>;
 template <typename V> static bool inside(V const& v, arena& ar, const char* what) { if (v.width() <= 0 || v.height() <= 0) return true;
   for (auto& kv : ar.live) { (void)kv; }
   return true; }
-static int touch(image_t& im) { auto v = view(im); for (std::ptrdiff_t y = 0; y < v.height(); y++) for (std::ptrdiff_t x = 0; x < v.width(); x++) { pixel_t p = v(x,y); v(x,y) = p; } return 0; }
-int main(int argc, char** argv){ vr::parse(argc, argv);
+template <typename I> static int touch(I& im) { auto v = view(im); for (std::ptrdiff_t y = 0; y < v.height(); y++) for (std::ptrdiff_t x = 0; x < v.width(); x++) { pixel_t p = v(x,y); v(x,y) = p; } return 0; }
+template <bool PS> static int scenario(){ using image_t = image_ps<PS>; using alloc_t = chk_alloc<unsigned char, PS>;
   long w0 = vr::i64("a._view.w", 16) % 64, h0 = vr::i64("a._view.h", 16) % 64, al0 = vr::i64("a._align_in_bytes", 0) % 129;
-  long w1 = vr::i64("d.x", 16) % 64, h1 = vr::i64("d.y", 16) % 64, al1 = vr::i64("al", 64) % 129;
+  long w1 = vr::i64("d.x", 9) % 64, h1 = vr::i64("d.y", 5) % 64, al1 = vr::i64("al", 64) % 129;
   if (w0 < 0) w0 = -w0; if (h0 < 0) h0 = -h0; if (w1 < 0) w1 = -w1; if (h1 < 0) h1 = -h1; if (al0 < 0) al0 = 0; if (al1 < 0) al1 = 0;
   std::string chk = vr::str("check");
-  auto is = [&](const char* n){ return chk.empty() || chk.find(n) != std::string::npos; };
+  auto is = [&](const char* n){ return chk.empty() || chk == "all" || chk.find(n) != std::string::npos; };
   {
-    image_t a(w0, h0, (std::size_t)al0, chk_alloc<unsigned char>(&A0)); touch(a);
-    image_t b(w1, h1, (std::size_t)al1, chk_alloc<unsigned char>(&A1)); touch(b);
+    image_t a(w0, h0, (std::size_t)al0, alloc_t(&A0)); touch(a);
+    image_t b(w1, h1, (std::size_t)al1, alloc_t(&A1)); touch(b);
     if (is("recreate") || is("ctor_dims") || is("ctor_fill")) {
       a.recreate(w1, h1, (std::size_t)al1); touch(a);
       a.recreate(point_t(w0, h0), pixel_t(), (std::size_t)al0); touch(a);
-      a.recreate(point_t(w1, h1), (std::size_t)al1, chk_alloc<unsigned char>(&A0)); touch(a);
-      a.recreate(point_t(w0, h0), pixel_t(), (std::size_t)al0, chk_alloc<unsigned char>(&A0)); touch(a); }
+      a.recreate(point_t(w1, h1), (std::size_t)al1, alloc_t(&A0)); touch(a);
+      a.recreate(point_t(w0, h0), pixel_t(), (std::size_t)al0, alloc_t(&A0)); touch(a);
+      a.recreate(point_t(w1 + 3, h1 + 2), (std::size_t)al1, alloc_t(&A1)); touch(a);          // growing recreate handing over another allocator
+      a.recreate(point_t(w0 + 7, h0 + 7), pixel_t(), (std::size_t)al0, alloc_t(&A0)); touch(a); }
     if (is("copy")) { image_t c(a); touch(c); c = b; touch(c); image_t e(b); e = a; touch(e); }
     if (is("move_ctor") || is("swap")) { image_t c(a); image_t d(std::move(c)); touch(d); a.swap(d); touch(a); touch(d); }
     if (is("move_assign")) {
       a = std::move(b); touch(a);                      // non-propagating allocators, unequal
-      image_t e(3, 2, 0, chk_alloc<unsigned char>(&A1)); image_t f(0, 0, 0, chk_alloc<unsigned char>(&A0)); e = std::move(f); touch(e);
-      image_t g(w0, h0, (std::size_t)al0, chk_alloc<unsigned char>(&A0)); image_t h(w1, h1, (std::size_t)al1, chk_alloc<unsigned char>(&A0)); g = std::move(h); touch(g); }
+      image_t e(3, 2, 0, alloc_t(&A1)); image_t f(0, 0, 0, alloc_t(&A0)); e = std::move(f); touch(e);
+      image_t g(w0, h0, (std::size_t)al0, alloc_t(&A0)); image_t h(w1, h1, (std::size_t)al1, alloc_t(&A0)); g = std::move(h); touch(g); }
   }
   long leaked = (long)A0.live.size() + (long)A1.live.size();
   if (A0.errors + A1.errors) REPRODUCED("%d allocator errors (see above) for dims %ldx%ld align %ld -> %ldx%ld align %ld", A0.errors + A1.errors, w0, h0, al0, w1, h1, al1);
   if (leaked) REPRODUCED("%ld block(s) never deallocated (allocs %ld/%ld frees %ld/%ld)", leaked, A0.allocs, A1.allocs, A0.frees, A1.frees);
-  NOT_REPRODUCED("no allocator error, no leak for dims %ldx%ld align %ld -> %ldx%ld align %ld", w0, h0, al0, w1, h1, al1); }
+  return 0; }
+int main(int argc, char** argv){ vr::parse(argc, argv);
+  if (scenario<true>()) return 1;          // allocator type that propagates on swap
+  if (scenario<false>()) return 1;         // allocator_traits default: no propagation on swap
+  NOT_REPRODUCED("no allocator error, no leak (both swap-propagation modes of the allocator type)"); }
 '''
 
 ARITH = ['align', 'row_size', 'total_size']
